@@ -224,6 +224,24 @@ def cfg_grammars():
     ], tags=["cfg on nonterminal", "cfg on alternative", "cfg on extern conversion", "not/all/any", "conjoined attributes"])
     g.features = ["a", "b"]
     gs.append(g)
+    # three features, nested predicates, cfg on a macro-using alternative and on a terminal only used under the same predicate
+    fc = ("feat", "c")
+    t2 = terms("p q r s ;")
+    t2[3].cfgs = [("all", [fa, ("any", [fb, fc])])]                     # "s"
+    g2 = Grammar("cfg_nested", t2, [
+        NT("S", [
+            A("p", "X"),
+            Alt(S("q", "q"), cfgs=[("not", ("any", [fa, fb]))]),
+            Alt(S("s", ";"), cfgs=[("all", [fa, ("any", [fb, fc])])]),
+            Alt(S("q", "Y"), cfgs=[("any", [("all", [fa, fb]), ("not", fc)])]),
+            Alt(S("r", Rep(Tm("p"), "*"), ";"), cfgs=[("not", ("not", fc))]),
+        ], pub=True),
+        NT("X", [A(";"), Alt(S("r", "X"), cfgs=[("any", [fc, ("all", [fa, ("not", fb)])])])]),
+        NT("Y", [A("p"), A("Y", "r")], cfgs=[("any", [("all", [fa, fb]), ("not", fc)])]),
+    ], tags=["three features", "nested not/any/all", "double negation", "cfg on an alternative using a repetition"])
+    g2.features = ["a", "b", "c"]
+    g2.thorough_only = True
+    gs.append(g2)
     return gs
 
 
